@@ -21,6 +21,13 @@ impl Key for RefId { type G = int; open spec fn g(&self) -> int { self.0 as int 
 pub struct AnyPtr { p: usize }
 impl AnyPtr {
     pub uninterp spec fn addr(&self) -> int;
+
+    // TRUSTED[D20]: `unsafe { ptr.as_ref() }` -- the registered object is assumed to be alive and
+    // the pointer non-null; no caller contract can establish this (lifetime erased in store_ref)
+    #[verifier::external_body]
+    pub fn as_ref(&self) -> (r: Option<&AnyPtr>)
+        ensures r matches Some(p) && p.addr() == self.addr(),
+    { unimplemented!() }
 }
 impl Key for AnyPtr { type G = int; open spec fn g(&self) -> int { self.addr() } }
 
